@@ -152,11 +152,20 @@ func (r Result) Empty() bool {
 	return false
 }
 
+// sameFloat: equal up to rounding noise (the engine sums in map iteration order in places, so the last
+// bits of e.g. stdvar over count_values are not reproducible).
 func sameFloat(a, b float64) bool {
-	return a == b || math.IsNaN(a) && math.IsNaN(b)
+	if a == b || math.IsNaN(a) && math.IsNaN(b) {
+		return true
+	}
+	if math.IsInf(a, 0) || math.IsInf(b, 0) || math.IsNaN(a) || math.IsNaN(b) {
+		return false
+	}
+	d := math.Abs(a - b)
+	return d <= 1e-9*math.Max(math.Abs(a), math.Abs(b)) || d <= 1e-12
 }
 
-// Equal compares kind, label sets, timestamps and values (NaN equals NaN).
+// Equal compares kind, label sets, timestamps and values (NaN equals NaN, floats up to a relative 1e-9).
 func (r Result) Equal(o Result) bool {
 	if r.Kind != o.Kind || len(r.Series) != len(o.Series) || r.Str != o.Str {
 		return false
